@@ -3902,7 +3902,7 @@ class FuncSub(ValueFunc):
         if a.isDate():
             if b.isDate():
                 diff = to_oa_date(a.value) - to_oa_date(b.value)
-                return ValueInt(diff)
+                return ValueInt(math.trunc(diff))
             return ValueDate(
                 to_date(to_oa_date(a.value) - args.getAsDecimal("b").value)
             )
@@ -4090,7 +4090,7 @@ class FuncTimestamp(ValueFunc):
         return []
 
     def execute(self, args, environment, pos):
-        return ValueInt(datetime.datetime.now().timestamp())
+        return ValueInt(int(datetime.datetime.now().timestamp()))
 
 
 class FuncTrim(ValueFunc):
